@@ -36,8 +36,8 @@ func init() {
 		Title: "Chain-key announcements: recipient-only, exact, and reaching every member",
 		Explanation: "Decides structural necessary conditions from the type-checked SSA of /repo, using a context-sensitive backward origin tracer. " +
 			"(D1) seal/open sibling agreement: the box.Seal behind SecretStore.GetShareableChainKey uses the own member-device holder's DEVICE private key (the key DeviceSign signs with) and the target-member parameter, the box.Open behind RegisterChainKey uses the holder's MEMBER private key (the key MemberSign signs with) and the sender-device parameter, both holders being obtained for the group parameter; both nonces derive from the group's public key and from nothing else, with the same origin signature on both sides; private/public keys go through the same conversion primitives on both sides; the opened bytes are the ciphertext parameter; box.Open failure and every error on the way up reject; what is registered is the decoded output of box.Open under the sender and group parameters, on every success path; GetShareableChainKey returns only box.Seal output. " +
-			"(D2) the recipient filter returns sender key and ciphertext decoded from one GroupDeviceChainKeyAdded taken from the metadata payload, only on the accepting side of (event type == GroupDeviceChainKeyAdded) and of (local key Equals decoded DestMemberPk). " +
-			"(D3) every module call of RegisterChainKey takes sender and ciphertext from results #0/#1 of one recipient-filter call (directly or through a map filled only with such results), every use of those results lies on the nil-error side of the filter call, and the filter is given the own MEMBER public key. " +
+			"(D2) the recipient filter - the root-package function taking (metadata, local public key) and returning an error from which a GroupDeviceChainKeyAdded is decoded, the decode, the event-type guard and the recipient test each living in that function or in a module helper (depth <= 2), decoded values possibly carried in a local struct built by a helper - returns sender key and ciphertext decoded from one GroupDeviceChainKeyAdded taken from the metadata payload, only on the accepting side of (event type == GroupDeviceChainKeyAdded) and of (local key Equals decoded DestMemberPk); a test made in a helper counts when all success returns of the helper pass it and every caller up to the filter enforces the helper's error. " +
+			"(D3) every module call of RegisterChainKey takes sender and ciphertext from the results of one recipient-filter call (directly or through a map filled only with such results) which, looking through the filter and its helpers, are the DevicePk and the Payload of the decoded announcement; every use of the filter's results lies on the nil-error side of the filter call, and the filter is given the own MEMBER public key. " +
 			"(D4) announce: the metadata-event handler behind ActivateGroupContext calls SendSecret on every success path of the GroupMemberDeviceAdded branch with the MemberPk decoded from the event; activation subscribes before it starts the catch-up, sends to every member listed and registers from the listed events; SendSecret seals for exactly the member it addresses (GetShareableChainKey target = DestMemberPk = its parameter), publishes the sealed bytes under the own device key and has no success return that skips publishing. " +
 			"(D5) the set that SendSecret's 'already sent to this member' refusal reads is written only on the equal side of a comparison between the index's own DEVICE key and the DevicePk of the GroupDeviceChainKeyAdded event being indexed, keyed by that event's DestMemberPk, and is otherwise only initialised empty (an announcement by another device must never silence this device). " +
 			"(D6) in the get-or-create function behind GetShareableChainKey (the function that returns a *DeviceChainKey and both looks up and stores under the chain-key datastore namespace) every store site is dominated by a lookup made under the same write lock, held without release from the lookup to the store: the key that gets sealed is either the stored one or one registered in the critical section that found it missing. " +
@@ -924,6 +924,10 @@ func c05EnumConst(w *World, name string) (int64, bool) {
 // c05EventTypeTests: comparisons in fn of an EventType value (matching from) with the
 // constant val; returns the edges taken when equal.
 func c05EventTypeTests(t *c05Tracer, fn *ssa.Function, val int64, from func(c05Origin) bool) (equalEdges []edge, n int) {
+	return c05EventTypeTestsCtx(t, fn, nil, val, from)
+}
+
+func c05EventTypeTestsCtx(t *c05Tracer, fn *ssa.Function, ctx *c05Frame, val int64, from func(c05Origin) bool) (equalEdges []edge, n int) {
 	for _, b := range fn.Blocks {
 		for _, in := range b.Instrs {
 			bo, ok := in.(*ssa.BinOp)
@@ -939,7 +943,7 @@ func c05EventTypeTests(t *c05Tracer, fn *ssa.Function, val int64, from func(c05O
 			if other == nil {
 				continue
 			}
-			if !c05Any(t.origins(other, nil), from) {
+			if !c05Any(t.origins(other, ctx), from) {
 				continue
 			}
 			n++
@@ -1350,6 +1354,97 @@ type c05Filter struct {
 	metaIdx  int
 }
 
+// c05IsDecode: a proto.Unmarshal into a *GroupDeviceChainKeyAdded.
+func c05IsDecode(ci ssa.CallInstruction) bool {
+	if ci == nil || calleeKey(ci.Common()) != c05KeyProtoU {
+		return false
+	}
+	ua := ci.Common().Args
+	if len(ua) != 2 {
+		return false
+	}
+	mi, ok := ua[1].(*ssa.MakeInterface)
+	return ok && isNamed(mi.X.Type(), pkgTypes, "GroupDeviceChainKeyAdded")
+}
+
+// c05FrameOf is one function reached from an entry through a chain of static module calls.
+type c05FrameOf struct {
+	fn    *ssa.Function
+	ctx   *c05Frame
+	chain []ssa.CallInstruction
+}
+
+// c05Frames: entry and its module callees up to maxDepth, one element per call path.
+func c05Frames(entry *ssa.Function, maxDepth int) []c05FrameOf {
+	var out []c05FrameOf
+	onPath := map[*ssa.Function]bool{}
+	var walk func(fn *ssa.Function, ctx *c05Frame, chain []ssa.CallInstruction, d int)
+	walk = func(fn *ssa.Function, ctx *c05Frame, chain []ssa.CallInstruction, d int) {
+		if onPath[fn] || fn.Blocks == nil {
+			return
+		}
+		onPath[fn] = true
+		defer delete(onPath, fn)
+		out = append(out, c05FrameOf{fn, ctx, append([]ssa.CallInstruction(nil), chain...)})
+		if d >= maxDepth {
+			return
+		}
+		for _, b := range fn.Blocks {
+			for _, in := range b.Instrs {
+				ci, ok := in.(*ssa.Call)
+				if !ok {
+					continue
+				}
+				cal := c05CalleeOf(ci)
+				if cal == nil || !inModule(cal) || cal.Blocks == nil || fnPkg(cal) == nil || fnPkg(cal).Path() != fnPkg(entry).Path() {
+					continue
+				}
+				depth := 1
+				if ctx != nil {
+					depth = ctx.depth + 1
+				}
+				walk(cal, &c05Frame{site: ci, up: ctx, depth: depth}, append(chain, ci), d+1)
+			}
+		}
+	}
+	walk(entry, nil, nil, 0)
+	return out
+}
+
+// c05ChainEnforced: every success return of fr.fn takes one of the accepting edges, its
+// failing side rejects (when the verdict value is given), and the error of every call on the
+// chain from the entry down to fr.fn is enforced in its caller: a success return of the entry
+// implies that the test accepted.
+func c05ChainEnforced(c *Ctx, fr c05FrameOf, accept []edge, verdict ssa.Value) (bool, string) {
+	if by := bypassReturns(fr.fn, accept, nil); len(by) > 0 {
+		return false, "success returns of " + fnName(fr.fn) + " not on its accepting side: " + describeReturns(c, by)
+	}
+	if verdict != nil {
+		if r := rejectOnFailure(fr.fn, verdict); !r.OK {
+			return false, "in " + fnName(fr.fn) + ": " + r.Why
+		}
+	}
+	for i := len(fr.chain) - 1; i >= 0; i-- {
+		up := fr.chain[i]
+		caller := up.Parent()
+		ev := errVerdict(up)
+		if ev == nil {
+			return false, "the error of " + fnName(c05CalleeOf(up)) + " is discarded in " + fnName(caller)
+		}
+		if r := rejectOnFailure(caller, ev); !r.OK {
+			return false, "the error of " + fnName(c05CalleeOf(up)) + " is not enforced in " + fnName(caller) + ": " + r.Why
+		}
+		if by := bypassReturns(caller, edgesOfVerdict(ev).Accept, []ssa.Value{ev}); len(by) > 0 {
+			return false, "success returns of " + fnName(caller) + " that do not follow a nil error of " + fnName(c05CalleeOf(up)) + ": " + describeReturns(c, by)
+		}
+	}
+	return true, ""
+}
+
+// c05D2: the recipient filter is the root-package function that takes the metadata and the
+// local public key, returns an error, and from which (itself or module callees, depth <= 2)
+// a GroupDeviceChainKeyAdded is decoded; the decode, the event-type guard and the recipient
+// test may each live in a helper, and the decoded values may travel in a local struct.
 func c05D2(c *Ctx, tr *c05Tracer) []*c05Filter {
 	w := c.W
 	var filters []*c05Filter
@@ -1359,25 +1454,7 @@ func c05D2(c *Ctx, tr *c05Tracer) []*c05Filter {
 		return nil
 	}
 	for _, fn := range w.ModFuncs {
-		if fnPkg(fn) == nil || fnPkg(fn).Path() != pkgRoot || fn.Parent() != nil {
-			continue
-		}
-		// decodes a GroupDeviceChainKeyAdded and hands out a public key and bytes
-		var dec []ssa.CallInstruction
-		for _, u := range callsIn(fn, keyIs(c05KeyProtoU)) {
-			ua := u.Common().Args
-			if len(ua) == 2 {
-				if mi, ok := ua[1].(*ssa.MakeInterface); ok && isNamed(mi.X.Type(), pkgTypes, "GroupDeviceChainKeyAdded") {
-					dec = append(dec, u)
-				}
-			}
-		}
-		if len(dec) == 0 {
-			continue
-		}
-		res := fn.Signature.Results()
-		if res.Len() != 3 || !c05IsPubKey(res.At(0).Type()) || !isErrorType(res.At(2).Type()) {
-			c.note("%s decodes a GroupDeviceChainKeyAdded but is not shaped like the recipient filter (PubKey, []byte, error)", fnName(fn))
+		if fnPkg(fn) == nil || fnPkg(fn).Path() != pkgRoot || fn.Parent() != nil || len(fn.Blocks) == 0 {
 			continue
 		}
 		f := &c05Filter{fn: fn, localIdx: -1, metaIdx: -1}
@@ -1385,111 +1462,157 @@ func c05D2(c *Ctx, tr *c05Tracer) []*c05Filter {
 			if c05IsPubKey(p.Type()) {
 				f.localIdx = i
 			}
-			if isNamed(p.Type(), pkgTypes, "GroupMetadata") {
+			if _, isPtr := p.Type().(*types.Pointer); isPtr && isNamed(p.Type(), pkgTypes, "GroupMetadata") {
 				f.metaIdx = i
 			}
 		}
-		if f.localIdx < 0 || f.metaIdx < 0 {
-			c.undecided("D2", fnName(fn), fn.Pos(), "recipient filter without (metadata, local public key) parameters")
+		if f.localIdx < 0 || f.metaIdx < 0 || errResultIndex(fn.Signature) < 0 {
+			continue
+		}
+		frames := c05Frames(fn, 2)
+		type decSite struct {
+			call ssa.CallInstruction
+			fr   c05FrameOf
+		}
+		var dec []decSite
+		for _, fr := range frames {
+			for _, u := range callsIn(fr.fn, keyIs(c05KeyProtoU)) {
+				if c05IsDecode(u) {
+					dec = append(dec, decSite{u, fr})
+				}
+			}
+		}
+		if len(dec) == 0 {
 			continue
 		}
 		filters = append(filters, f)
 		c.analysed(fn)
+		for _, fr := range frames {
+			c.analysed(fr.fn)
+		}
 		name := fnName(fn)
 		isDec := func(o c05Origin, path string) bool {
-			if o.Kind != "written" || o.Path != path {
-				return false
-			}
-			for _, d := range dec {
-				if o.Call == d {
-					return true
-				}
-			}
-			return false
+			return o.Kind == "written" && o.Path == path && c05IsDecode(o.Call)
+		}
+		isParam := func(idx int) func(c05Origin) bool {
+			return func(o c05Origin) bool { return o.Kind == "param" && o.Fn == fn && o.Param == idx }
 		}
 		// (a) decoded from the metadata payload
 		for _, d := range dec {
-			src := c05NonConst(tr.contentOrigins(d.Common().Args[0], nil, d))
-			c.check(c05All(src, func(o c05Origin) bool {
-				return o.Kind == "param" && o.Fn == fn && o.Param == f.metaIdx && o.Path == ".Payload"
-			}), "D2", name+"+decode-source", posOf(d),
+			src := c05NonConst(tr.contentOrigins(d.call.Common().Args[0], d.fr.ctx, d.call))
+			c.check(c05All(src, func(o c05Origin) bool { return isParam(f.metaIdx)(o) && o.Path == ".Payload" }), "D2", name+"+decode-source", posOf(d.call),
 				"the announcement is decoded from the metadata's payload (the bytes whose signature C03 checks)",
 				"the announcement must be decoded from the Payload of the metadata parameter but is decoded from: "+c05Describe(src))
 		}
 		// (b) results come from the decoded announcement
-		okS, okP, nRet := true, true, 0
+		okS, okP, nKey, nBytes := true, true, 0, 0
 		var badS, badP []c05Origin
 		for _, r := range returnsOf(fn) {
 			if !isSuccessReturn(r) {
 				continue
 			}
-			nRet++
-			rs := retResults(r)
-			so := c05NonConst(tr.origins(rs[0], nil))
-			if !c05All(so, func(o c05Origin) bool { return isDec(o, ".DevicePk") }) {
-				okS = false
-				badS = so
-			}
-			po := c05NonConst(tr.origins(rs[1], nil))
-			if !c05All(po, func(o c05Origin) bool { return isDec(o, ".Payload") }) {
-				okP = false
-				badP = po
-			}
-		}
-		c.check(okS && nRet > 0, "D2", name+"+sender", fn.Pos(),
-			"the returned sender key is the DevicePk of the decoded (device-signed) announcement",
-			"the returned sender key must be the DevicePk of the decoded announcement but derives from: "+c05Describe(badS))
-		c.check(okP && nRet > 0, "D2", name+"+ciphertext", fn.Pos(),
-			"the returned ciphertext is the Payload of the same decoded announcement",
-			"the returned ciphertext must be the Payload of the decoded announcement but derives from: "+c05Describe(badP))
-		// (c) recipient comparison
-		var cmp []*ssa.Call
-		for _, b := range fn.Blocks {
-			for _, in := range b.Instrs {
-				call, ok := in.(*ssa.Call)
-				if !ok || !isBoolType(call.Type()) {
-					continue
-				}
-				ops := call.Common().Args
-				if call.Common().IsInvoke() {
-					ops = append([]ssa.Value{call.Common().Value}, ops...)
-				}
-				hasLocal, hasDest := false, false
-				for _, op := range ops {
-					oo := c05NonConst(tr.contentOrigins(op, nil, call))
-					if c05All(oo, func(o c05Origin) bool { return o.Kind == "param" && o.Fn == fn && o.Param == f.localIdx }) {
-						hasLocal = true
+			for i, rv := range retResults(r) {
+				rt := fn.Signature.Results().At(i).Type()
+				switch {
+				case c05IsPubKey(rt):
+					nKey++
+					so := c05NonConst(tr.contentOrigins(rv, nil, r))
+					if !c05All(so, func(o c05Origin) bool { return isDec(o, ".DevicePk") }) {
+						okS, badS = false, so
 					}
-					if c05All(oo, func(o c05Origin) bool { return isDec(o, ".DestMemberPk") }) {
-						hasDest = true
+				case isByteSlice(rt):
+					nBytes++
+					po := c05NonConst(tr.contentOrigins(rv, nil, r))
+					if !c05All(po, func(o c05Origin) bool { return isDec(o, ".Payload") }) {
+						okP, badP = false, po
 					}
-				}
-				if hasLocal && hasDest {
-					cmp = append(cmp, call)
 				}
 			}
 		}
-		if len(cmp) == 0 {
+		if nKey > 0 {
+			c.check(okS, "D2", name+"+sender", fn.Pos(),
+				"the returned sender key is the DevicePk of the decoded (device-signed) announcement",
+				"the returned sender key must be the DevicePk of the decoded announcement but derives from: "+c05Describe(badS))
+		}
+		if nBytes > 0 {
+			c.check(okP, "D2", name+"+ciphertext", fn.Pos(),
+				"the returned ciphertext is the Payload of the same decoded announcement",
+				"the returned ciphertext must be the Payload of the decoded announcement but derives from: "+c05Describe(badP))
+		}
+		if nKey == 0 && nBytes == 0 {
+			c.note("%s hands out the decoded announcement in another shape than (PubKey, []byte): what it returns is checked at the RegisterChainKey call sites (D3) only", name)
+		}
+		// (c) recipient comparison: in the filter or in a helper on the way
+		nCmp := 0
+		for _, fr := range frames {
+			for _, b := range fr.fn.Blocks {
+				for _, in := range b.Instrs {
+					call, ok := in.(*ssa.Call)
+					if !ok || !isBoolType(call.Type()) {
+						continue
+					}
+					ops := call.Common().Args
+					if call.Common().IsInvoke() {
+						ops = append([]ssa.Value{call.Common().Value}, ops...)
+					}
+					hasLocal, hasDest := false, false
+					for _, op := range ops {
+						oo := c05NonConst(tr.contentOrigins(op, fr.ctx, call))
+						if c05All(oo, isParam(f.localIdx)) {
+							hasLocal = true
+						}
+						if c05All(oo, func(o c05Origin) bool { return isDec(o, ".DestMemberPk") }) {
+							hasDest = true
+						}
+					}
+					if !hasLocal || !hasDest {
+						continue
+					}
+					nCmp++
+					okc, why := c05ChainEnforced(c, fr, edgesOfVerdict(call).Accept, call)
+					c.check(okc, "D2", name+"+recipient-test", posOf(call),
+						"every success return lies on the equal side of (local member key == DestMemberPk); the other side rejects",
+						"the recipient test is not enforced: "+why)
+				}
+			}
+		}
+		if nCmp == 0 {
 			c.fail("D2", name+"+recipient-test", fn.Pos(), "no comparison of the local member key parameter with the DestMemberPk of the decoded announcement: announcements for other members are not filtered out")
 		}
-		for _, call := range cmp {
-			by := bypassReturns(fn, edgesOfVerdict(call).Accept, nil)
-			r := rejectOnFailure(fn, call)
-			c.check(len(by) == 0 && r.OK, "D2", name+"+recipient-test", posOf(call),
-				"every success return lies on the equal side of (local member key == DestMemberPk); the other side rejects",
-				"the recipient test is not enforced: "+r.Why+"; success returns not on its equal side: "+describeReturns(c, by))
+		// (d) event-type guard: in the filter or in a helper on the way
+		nGuard, okGuard, whyGuard := 0, false, ""
+		for _, fr := range frames {
+			eq, n := c05EventTypeTestsCtx(tr, fr.fn, fr.ctx, evVal, isParam(f.metaIdx))
+			if n == 0 {
+				continue
+			}
+			nGuard += n
+			if okc, why := c05ChainEnforced(c, fr, eq, nil); okc {
+				okGuard = true
+			} else {
+				whyGuard = why
+			}
 		}
-		// (d) event-type guard
-		eq, n := c05EventTypeTests(tr, fn, evVal, func(o c05Origin) bool { return o.Kind == "param" && o.Fn == fn && o.Param == f.metaIdx })
-		by := bypassReturns(fn, eq, nil)
-		c.check(n > 0 && len(by) == 0, "D2", name+"+event-type", fn.Pos(),
+		if nGuard == 0 {
+			whyGuard = "no test of the metadata's event type"
+		}
+		c.check(okGuard, "D2", name+"+event-type", fn.Pos(),
 			"every success return lies on the (event type == GroupDeviceChainKeyAdded) side",
-			"a success return is reachable for metadata whose type is not GroupDeviceChainKeyAdded (payloads of other event types would be read as announcements): "+describeReturns(c, by))
+			"a success return is reachable for metadata whose type is not GroupDeviceChainKeyAdded (payloads of other event types would be read as announcements): "+whyGuard)
 	}
 	if len(filters) == 0 {
-		c.undecided("D2", "recipient filter", token.NoPos, "no function in %s decodes a GroupDeviceChainKeyAdded into (PubKey, []byte, error)", pkgRoot)
+		c.undecided("D2", "recipient filter", token.NoPos, "no function in %s takes (metadata, local public key), returns an error and decodes a GroupDeviceChainKeyAdded (itself or through helpers)", pkgRoot)
 	}
 	return filters
+}
+
+func isByteSlice(t types.Type) bool {
+	sl, ok := t.Underlying().(*types.Slice)
+	if !ok {
+		return false
+	}
+	b, ok := sl.Elem().Underlying().(*types.Basic)
+	return ok && b.Kind() == types.Byte
 }
 
 // ---------------------------------------------------------------------------
@@ -1531,6 +1654,7 @@ func c05D3(c *Ctx, tr *c05Tracer, filters []*c05Filter, openEntry *ssa.Function)
 		return
 	}
 	base := tr.stop
+	deep := newC05Tracer(w, base)
 	tr = newC05Tracer(w, func(fn *ssa.Function) bool { return isFilter(fn) != nil || base(fn) })
 	checkedFilterCalls := map[ssa.CallInstruction]bool{}
 	nSites := 0
@@ -1550,19 +1674,25 @@ func c05D3(c *Ctx, tr *c05Tracer, filters []*c05Filter, openEntry *ssa.Function)
 				cons := fnName(fn) + "+RegisterChainKey"
 				so := c05NonConst(tr.origins(sender, nil))
 				co := c05NonConst(tr.origins(cipher, nil))
-				fromFilter := func(res int) func(c05Origin) bool {
-					return func(o c05Origin) bool {
-						return o.Kind == "call" && o.Res == res && len(o.Via) == 0 && o.Path == "" && isFilter(c05CalleeOf(o.Call)) != nil
-					}
+				// (1) the values are handed out by a recipient-filter call and by nothing else
+				// (2) looking through the filter and its helpers, they are DevicePk / Payload of
+				//     the decoded announcement
+				fromFilter := func(o c05Origin) bool {
+					return o.Kind == "call" && len(o.Via) == 0 && isFilter(c05CalleeOf(o.Call)) != nil
 				}
-				okS := c05All(so, fromFilter(0))
-				okC := c05All(co, fromFilter(1))
+				decoded := func(path string) func(c05Origin) bool {
+					return func(o c05Origin) bool { return o.Kind == "written" && o.Path == path && c05IsDecode(o.Call) }
+				}
+				sd := c05NonConst(deep.contentOrigins(sender, nil, ci))
+				cd := c05NonConst(deep.contentOrigins(cipher, nil, ci))
+				okS := c05All(so, fromFilter) && c05All(sd, decoded(".DevicePk"))
+				okC := c05All(co, fromFilter) && c05All(cd, decoded(".Payload"))
 				c.check(okS, "D3", cons+".sender", posOf(ci),
-					"the sender key registered is result #0 of the recipient filter",
-					"the sender key given to RegisterChainKey is not (only) the key returned by the recipient filter: "+c05Describe(so))
+					"the sender key registered is the DevicePk handed out by the recipient filter",
+					"the sender key given to RegisterChainKey is not (only) the DevicePk handed out by the recipient filter: "+c05Describe(so)+" / "+c05Describe(sd))
 				c.check(okC, "D3", cons+".ciphertext", posOf(ci),
-					"the ciphertext registered is result #1 of the recipient filter",
-					"the ciphertext given to RegisterChainKey is not (only) the bytes returned by the recipient filter (announcements addressed to other members would be opened): "+c05Describe(co))
+					"the ciphertext registered is the Payload handed out by the recipient filter",
+					"the ciphertext given to RegisterChainKey is not (only) the Payload handed out by the recipient filter (announcements addressed to other members would be opened): "+c05Describe(co)+" / "+c05Describe(cd))
 				if !okS || !okC {
 					continue
 				}
@@ -1610,7 +1740,10 @@ func c05D3FilterCall(c *Ctx, tr *c05Tracer, fc ssa.CallInstruction, f *c05Filter
 		ve := edgesOfVerdict(ev)
 		bad := ""
 		n := 0
-		for _, idx := range []int{0, 1} {
+		for idx := 0; idx < call.Common().Signature().Results().Len(); idx++ {
+			if idx == errResultIndex(call.Common().Signature()) {
+				continue
+			}
 			for _, ex := range extractsOf(call, idx) {
 				if ex.Referrers() == nil {
 					continue
